@@ -137,7 +137,7 @@ def run(ctx):
         lines.append("U " + pframes(a))
     for _ in range(n_m):
         H, T = rng.randint(1, 3), rng.randint(1, 3)
-        shape = rng.choice([(2, 2), (3, 1)])
+        shape = rng.choice([(2, 2), (3, 1), (2, 2, 2), (2, 1, 3)])   # 2D+t and 3D+t hypotheses
         a = np.stack([gen_array(rng, T=T, shape=shape) for _ in range(H)])
         cases.append(("M", a, None))
         lines.append("M " + "|".join(pframes(h) for h in a))
